@@ -4,6 +4,7 @@ import (
 	"fmt"
 	"strconv"
 	"strings"
+	"sync"
 	"time"
 
 	"verif/harness/internal/frames"
@@ -177,6 +178,71 @@ func runRegScript(script string) (string, *fw.OracleFailure) {
 
 func seenBefore(e sock.Event) bool { return false }
 
+// runRegRace: n connections present the same (fresh) key at the same moment, `rounds` times. Whatever the order in
+// which the manager sees their joins, exactly one is accepted (answered) and all others are refused (closed).
+func runRegRace(n, rounds int) (string, *fw.OracleFailure) {
+	srv, err := sysServer()
+	if err != nil {
+		return "server-start-failed", &fw.OracleFailure{Sig: "server/start", Msg: err.Error()}
+	}
+	lo, hi := n+1, -1
+	var orc *fw.OracleFailure
+	for r := 0; r < rounds; r++ {
+		if !srv.Alive() {
+			return "scenario-failed:server/died", &fw.OracleFailure{Sig: "server/died", Msg: "server process died during a registry scenario"}
+		}
+		phone := actNextPhone()
+		hb := frames.Build(frames.H{ID: 0x0002, Phone: phone, Serial: 1}, nil)
+		cls := make([]*sock.Client, n)
+		for i := range cls {
+			c, err := sock.Dial(srv.Addr())
+			if err != nil {
+				return "scenario-failed:server/refuses-connection", &fw.OracleFailure{Sig: "server/refuses-connection", Msg: err.Error()}
+			}
+			cls[i] = c
+		}
+		start := make(chan struct{})
+		var wg sync.WaitGroup
+		accepted := make([]bool, n)
+		for i, c := range cls {
+			wg.Add(1)
+			go func(i int, c *sock.Client) {
+				defer wg.Done()
+				<-start
+				_ = c.Send(hb)
+				if fs := c.ReadFrames(1, 800*time.Millisecond); len(fs) >= 1 {
+					accepted[i] = true
+				}
+			}(i, c)
+		}
+		close(start)
+		wg.Wait()
+		k := 0
+		for _, a := range accepted {
+			if a {
+				k++
+			}
+		}
+		if k < lo {
+			lo = k
+		}
+		if k > hi {
+			hi = k
+		}
+		if k != 1 && orc == nil {
+			orc = &fw.OracleFailure{Sig: "registry/owners", Msg: fmt.Sprintf("%d connections presented key %s at the same moment and %d of them were accepted (answered); exactly one may own the key", n, phoneStr(phone), k)}
+		}
+		mark := srv.Len()
+		for _, c := range cls {
+			c.Close()
+		}
+		srv.WaitForFrom(mark, func(e sock.Event) bool {
+			return sock.Str(e, "event") == "leave" && sock.Str(e, "key") == phoneStr(phone)
+		}, 300*time.Millisecond)
+	}
+	return fmt.Sprintf("ok rounds=%d owners=%d..%d", rounds, lo, hi), orc
+}
+
 func genRegScripts(r *fw.Rng, n int) []string {
 	out := []string{
 		"J0:a,J1:a,S9,S0a,X0,J2:a",
@@ -235,13 +301,39 @@ var C11 = &fw.Prop{ID: "C11",
 		for _, s := range genRegScripts(r, n) {
 			emit(fw.Case{Op: "reg", Args: []string{s}})
 		}
+		// simultaneous duplicate-key connects (the interleaving of their joins is the scheduler's choice)
+		rr := 4
+		if tier == "thorough" {
+			rr = 60
+		}
+		for i := 0; i < rr; i++ {
+			emit(fw.Case{Op: "regrace", Args: []string{strconv.Itoa(2 + r.Intn(7)), "25"}})
+		}
 	},
 	Exec: func(c fw.Case) string {
+		if c.Op == "regrace" {
+			n, _ := strconv.Atoi(c.Args[0])
+			rounds, _ := strconv.Atoi(c.Args[1])
+			res, o := runRegRace(n, rounds)
+			regLast.key, regLast.orc = strings.Join(c.Args, " "), o
+			return res
+		}
 		res, o := runRegScript(c.Args[0])
 		regLast.key, regLast.orc = c.Args[0], o
 		return res
 	},
 	Oracle: func(c fw.Case) *fw.OracleFailure {
+		if c.Op == "regrace" {
+			if regLast.key == strings.Join(c.Args, " ") {
+				o := regLast.orc
+				regLast.key = ""
+				return o
+			}
+			n, _ := strconv.Atoi(c.Args[0])
+			rounds, _ := strconv.Atoi(c.Args[1])
+			_, o := runRegRace(n, rounds)
+			return o
+		}
 		if regLast.key == c.Args[0] {
 			return regLast.orc
 		}
@@ -249,7 +341,7 @@ var C11 = &fw.Prop{ID: "C11",
 		return o
 	},
 	Class: func(c fw.Case, res string) string {
-		cl := "reg"
+		cl := c.Op
 		for _, k := range []string{"refused", "noexist", "to"} {
 			if strings.Contains(res, k) {
 				cl += ":" + k
